@@ -1,5 +1,10 @@
 package main
 
-func cmdCheck(args []string) int    { return 2 }
 func cmdSelftest(args []string) int { return 2 }
 func cmdReplay(args []string) int   { return 2 }
+
+// replayObligation writes the replay file of a failed obligation and tries to
+// reproduce it on the real code; confirmed reports whether that succeeded.
+func replayObligation(eng *Engine, vc *VC, o *Obl, prop, dir, repo string) (string, bool) {
+	return writeReplay(dir, prop, o, nil), false
+}
